@@ -75,18 +75,6 @@ Qed.
 
 (* ------------------------------------------------------------------ *)
 (** * rotation on the four paths: specification *)
-Fixpoint shift (carry : entry) (l : fsys) : fsys :=
-  match l with
-  | [] => []                                   (* falls off the end: deleted *)
-  | x :: t => carry :: (if present x then shift x t else t)
-  end.
-
-Definition rotate (l : fsys) : fsys :=
-  match l with
-  | [] => []
-  | e0 :: t => if present e0 then Absent :: shift e0 t else l
-  end.
-
 Definition is_good (e : entry) : bool := match e with Good _ _ _ => true | _ => false end.
 
 (** inductive strengthening of "the latest good copy is at <path> or _BAK1" *)
@@ -169,146 +157,99 @@ Lemma unwind_spec w :
 Proof. apply unwind_n_spec. Qed.
 
 (** one member operation *)
-Lemma sop_step_spec f o w :
-  let r := sop_step f o w in
+Definition keeps_partial (f : fmt) (a b : world) : Prop :=
+  match f with
+  | Zip => fs a = fs b
+  | Dir => forall g n t, fs b = Partial g n :: t -> exists n', fs a = Partial g n' :: t
+  end.
+
+Lemma keeps_partial_refl f a b : fs a = fs b -> keeps_partial f a b.
+Proof.
+  intros H. destruct f; cbn; [exact H|]. intros g n t Hb. exists n. rewrite H. exact Hb.
+Qed.
+
+Lemma keeps_partial_trans f a b c : keeps_partial f a b -> keeps_partial f b c -> keeps_partial f a c.
+Proof.
+  destruct f; cbn; intros H1 H2; [rewrite H1; exact H2|].
+  intros g n t Hc. destruct (H2 g n t Hc) as (n1 & Hb). exact (H1 g n1 t Hb).
+Qed.
+
+Definition step_post (f : fmt) (w : world) (r : res) : Prop :=
   same_sess (wof r) w
   /\ (fault w = None -> raised r = false /\ fault (wof r) = None)
-  /\ match f with
-     | Zip => fs (wof r) = fs w
-     | Dir => forall g n t, fs w = Partial g n :: t -> exists n', fs (wof r) = Partial g n' :: t
-     end.
+  /\ keeps_partial f (wof r) w.
+
+Lemma prim_step f o eff w :
+  (forall x, same_sess (eff x) x) -> (forall x, fault (eff x) = fault x) ->
+  (forall x, keeps_partial f (eff x) x) ->
+  step_post f w (prim o eff w).
 Proof.
-  assert (Hb : forall x g n t, fs x = Partial g n :: t -> fs (bump Dir x) = Partial g (S n) :: t).
-  { intros x g n t Hx. unfold bump, slot. rewrite Hx. cbn. rewrite Hx. reflexivity. }
-  assert (Hs : forall x, same_sess (bump f x) x).
-  { intros x. destruct (fs_only_bump f x) as (a & b & c & _). unfold same_sess. auto. }
-  assert (Hf : forall x, fault (bump f x) = fault x).
-  { intros x. destruct (fs_only_bump f x) as (_ & _ & _ & _ & e). exact e. }
-  unfold same_sess in *.
+  intros Hs Hf Hk. unfold step_post.
+  destruct (prim_cases o eff w) as [(w0 & E & F & R & N & FL & T & FN)|(w0 & E & F & R & N & FL & T & FN & FNN)];
+    rewrite E; cbn [wof raised].
+  - destruct (Hs w0) as (s1 & s2 & s3). split; [|split].
+    + unfold same_sess. rewrite s1, s2, s3, R, N, FL. auto.
+    + intros Hn. split; [reflexivity|]. rewrite Hf. apply FN. exact Hn.
+    + apply (keeps_partial_trans f _ w0); [apply Hk|apply keeps_partial_refl; exact F].
+  - split; [|split].
+    + unfold same_sess. rewrite R, N, FL. auto.
+    + intros Hn. exfalso. apply FNN. exact Hn.
+    + apply keeps_partial_refl. exact F.
+Qed.
+
+Lemma same_sess_refl w : same_sess w w.
+Proof. unfold same_sess. auto. Qed.
+
+Lemma bump_sess f x : same_sess (bump f x) x.
+Proof. destruct (fs_only_bump f x) as (a & b & c & _). unfold same_sess. auto. Qed.
+
+Lemma bump_fault f x : fault (bump f x) = fault x.
+Proof. destruct (fs_only_bump f x) as (_ & _ & _ & _ & e). exact e. Qed.
+
+Lemma bump_keeps f x : keeps_partial f (bump f x) x.
+Proof.
+  destruct f; cbn; [reflexivity|]. intros g n t Hx. exists (S n).
+  unfold slot. rewrite Hx. cbn. rewrite Hx. reflexivity.
+Qed.
+
+Lemma sop_step_spec f o w : step_post f w (sop_step f o w).
+Proof.
   destruct o; cbn [sop_step].
-  - (* SOpen *) pc TOpen noeff w w0; unfold noeff; cbn; repeat split; auto; try congruence;
-      try (intros Hn; exfalso; apply Hwas; exact Hn);
-      destruct f; [congruence| intros g n t Hw; exists n; congruence | congruence | intros g n t Hw; exists n; congruence].
-  - (* SFill *)
-    pc TFill noeff (bump f w) w0; unfold noeff; cbn; destruct (Hs w) as (s1 & s2 & s3); rewrite Hf in *;
-      repeat split; try congruence; auto;
-      try (intros Hn; exfalso; apply Hwas; exact Hn);
-      destruct f; try (unfold bump in *; congruence);
-      intros g n t Hw; exists (S n); rewrite Hfs; apply Hb; exact Hw.
-  - (* SMkdir *)
-    destruct creates.
-    + pc (TMkdir true) (bump f) w w0; cbn.
-      * destruct (Hs w0) as (s1 & s2 & s3). rewrite Hf. repeat split; try congruence; auto.
-        destruct f; [unfold bump; congruence|].
-        intros g n t Hw. exists (S n). apply Hb. congruence.
-      * repeat split; try congruence; try (intros Hn; exfalso; apply Hwas; exact Hn).
-        destruct f; [congruence|]. intros g n t Hw. exists n. congruence.
-    + pc (TMkdir false) noeff w w0; unfold noeff; cbn; repeat split; auto; try congruence;
-        try (intros Hn; exfalso; apply Hwas; exact Hn);
-        destruct f; [congruence| intros g n t Hw; exists n; congruence | congruence | intros g n t Hw; exists n; congruence].
-  - pc TDump noeff w w0; unfold noeff; cbn; repeat split; auto; try congruence;
-      try (intros Hn; exfalso; apply Hwas; exact Hn);
-      destruct f; [congruence| intros g n t Hw; exists n; congruence | congruence | intros g n t Hw; exists n; congruence].
-  - pc TCopy noeff w w0; unfold noeff; cbn; repeat split; auto; try congruence;
-      try (intros Hn; exfalso; apply Hwas; exact Hn);
-      destruct f; [congruence| intros g n t Hw; exists n; congruence | congruence | intros g n t Hw; exists n; congruence].
-  - pc TTmpdir tmp_inc w w0; unfold tmp_inc; cbn; repeat split; auto; try congruence;
-      try (intros Hn; exfalso; apply Hwas; exact Hn);
-      destruct f; [congruence| intros g n t Hw; exists n; congruence | congruence | intros g n t Hw; exists n; congruence].
+  - apply prim_step; intros x; [unfold same_sess; cbn; auto|reflexivity|apply keeps_partial_refl; reflexivity].
+  - (* SFill: the file exists before the callback runs *)
+    pose proof (prim_step f TFill noeff (bump f w)
+                  (fun x => same_sess_refl x) (fun x => eq_refl) (fun x => keeps_partial_refl f _ _ eq_refl))
+      as ((a1 & a2 & a3) & B & C).
+    destruct (bump_sess f w) as (b1 & b2 & b3).
+    split; [|split].
+    + unfold same_sess. rewrite a1, a2, a3. auto.
+    + intros Hn. apply B. rewrite bump_fault. exact Hn.
+    + apply (keeps_partial_trans f _ (bump f w)); [exact C|apply bump_keeps].
+  - destruct creates.
+    + apply prim_step; intros x; [apply bump_sess|apply bump_fault|apply bump_keeps].
+    + apply prim_step; intros x; [unfold same_sess; cbn; auto|reflexivity|apply keeps_partial_refl; reflexivity].
+  - apply prim_step; intros x; [unfold same_sess; cbn; auto|reflexivity|apply keeps_partial_refl; reflexivity].
+  - apply prim_step; intros x; [unfold same_sess; cbn; auto|reflexivity|apply keeps_partial_refl; reflexivity].
+  - apply prim_step; intros x; [unfold same_sess; cbn; auto|reflexivity|apply keeps_partial_refl; reflexivity].
   - (* SCleanup *)
     pose proof (cleanup_spec w) as (A & B & C). cbn in *. split; [exact B|]. split; [exact C|].
-    destruct f; [exact A|]. intros g n t Hw. exists n. congruence.
-  - pc TROpen noeff w w0; unfold noeff; cbn; repeat split; auto; try congruence;
-      try (intros Hn; exfalso; apply Hwas; exact Hn);
-      destruct f; [congruence| intros g n t Hw; exists n; congruence | congruence | intros g n t Hw; exists n; congruence].
-  - pc TRFill noeff w w0; unfold noeff; cbn; repeat split; auto; try congruence;
-      try (intros Hn; exfalso; apply Hwas; exact Hn);
-      destruct f; [congruence| intros g n t Hw; exists n; congruence | congruence | intros g n t Hw; exists n; congruence].
-  - pc TLoad noeff w w0; unfold noeff; cbn; repeat split; auto; try congruence;
-      try (intros Hn; exfalso; apply Hwas; exact Hn);
-      destruct f; [congruence| intros g n t Hw; exists n; congruence | congruence | intros g n t Hw; exists n; congruence].
+    apply keeps_partial_refl. exact A.
+  - apply prim_step; intros x; [unfold same_sess; cbn; auto|reflexivity|apply keeps_partial_refl; reflexivity].
+  - apply prim_step; intros x; [unfold same_sess; cbn; auto|reflexivity|apply keeps_partial_refl; reflexivity].
+  - apply prim_step; intros x; [unfold same_sess; cbn; auto|reflexivity|apply keeps_partial_refl; reflexivity].
 Qed.
 
-Lemma run_shape_spec f sh : forall w,
-  let r := run_shape f sh w in
-  same_sess (wof r) w
-  /\ (fault w = None -> raised r = false /\ fault (wof r) = None)
-  /\ match f with
-     | Zip => fs (wof r) = fs w
-     | Dir => forall g n t, fs w = Partial g n :: t -> exists n', fs (wof r) = Partial g n' :: t
-     end.
+Lemma run_shape_spec f sh : forall w, step_post f w (run_shape f sh w).
 Proof.
   induction sh as [|o sh IH]; intros w; cbn [run_shape].
-  - cbn. unfold same_sess. repeat split; auto. destruct f; auto. intros g n t H. exists n. exact H.
-  - pose proof (sop_step_spec f o w) as (A & B & C). destruct (sop_step f o w) as [w1|w1]; cbn in *.
-    + specialize (IH w1). cbn in IH. destruct IH as ((b1 & b2 & b3) & B' & C'). destruct A as (c1 & c2 & c3).
-      split; [unfold same_sess; repeat split; congruence|]. split.
+  - split; [apply same_sess_refl|]. split; [auto|apply keeps_partial_refl; reflexivity].
+  - pose proof (sop_step_spec f o w) as ((c1 & c2 & c3) & B & C).
+    destruct (sop_step f o w) as [w1|w1]; cbn [andthen wof raised] in *.
+    + destruct (IH w1) as ((b1 & b2 & b3) & B' & C').
+      split; [unfold same_sess; rewrite b1, b2, b3; auto|]. split.
       * intros Hn. destruct (B Hn) as (_ & Hn1). exact (B' Hn1).
-      * destruct f; [congruence|]. intros g n t Hw. destruct (C g n t Hw) as (n1 & H1).
-        destruct (C' g n1 t H1) as (n2 & H2). exists n2. exact H2.
-    + split; [exact A|]. split; [|exact C]. intros Hn. destruct (B Hn) as (X & _). discriminate X.
+      * exact (keeps_partial_trans f _ _ _ C' C).
+    + split; [unfold same_sess; auto|]. split; [|exact C].
+      intros Hn. destruct (B Hn) as (X & _). discriminate X.
 Qed.
 
-Lemma writer_fin_spec f w :
-  let r := writer_fin f w in
-  fs (wof r) = fs w /\ reg (wof r) = reg w /\ nuid (wof r) = nuid w /\ flag (wof r) = false
-  /\ (fault w = None -> raised r = false).
-Proof.
-  unfold writer_fin. destruct f.
-  - pose proof (unwind_spec (set_flag false w)) as (A & (b1 & b2 & b3) & C). cbn in *.
-    repeat split; auto. intros Hn. apply C. exact Hn.
-  - cbn. repeat split; auto.
-Qed.
-
-(** outcome of the writer on a path that the rotation left empty *)
-Definition writer_post (f : fmt) (g : nat) (t : fsys) (w : world) (r : res) : Prop :=
-  flag (wof r) = false /\ reg (wof r) = reg w /\ nuid (wof r) = nuid w /\
-  ((fs (wof r) = Absent :: t /\ raised r = true)
-   \/ (exists n, fs (wof r) = Good g f n :: t)
-   \/ (f = Dir /\ raised r = true /\ exists n, fs (wof r) = Partial g n :: t)) /\
-  (fault w = None -> raised r = false /\ exists n, fs (wof r) = Good g f n :: t).
-
-(** a raise inside the try block that left the file system as it was *)
-Lemma fin_after_raise f g t w w1 :
-  fs w1 = Absent :: t -> reg w1 = reg w -> nuid w1 = nuid w -> fault w <> None ->
-  writer_post f g t w (Raised (wof (writer_fin f w1))).
-Proof.
-  intros Hfs Hr Hn Hf. pose proof (writer_fin_spec f w1) as (A & B & C & D & _). cbn in *.
-  unfold writer_post. cbn. repeat split; try congruence.
-  - left. split; congruence.
-  - intros X. contradiction.
-Qed.
-
-Lemma writer_dir_spec sh g w t :
-  fs w = Absent :: t -> writer_post Dir g t w (writer Dir sh g w).
-Proof.
-  intros Hw. unfold writer, try_finally, writer_body.
-  set (w1 := set_flag true w).
-  assert (Hw1 : fs w1 = Absent :: t) by exact Hw.
-  replace (slot (fs w1) 0) with Absent by (rewrite Hw1; reflexivity). cbn [present negb].
-  pc (TMkdir true) (mkroot_dir g) w1 w0; cbn [andthen].
-  - (* root directory made *)
-    assert (H0 : fs (mkroot_dir g w0) = Partial g 1 :: t).
-    { unfold mkroot_dir, slot. rewrite Hfs, Hw1. cbn. rewrite Hfs, Hw1. reflexivity. }
-    destruct (fs_only_mkroot g w0) as (m1 & m2 & m3 & m4 & m5).
-    pose proof (run_shape_spec Dir sh (mkroot_dir g w0)) as ((a1 & a2 & a3) & B & C). cbn in C.
-    destruct (C g 1 t H0) as (n' & Hn').
-    destruct (run_shape Dir sh (mkroot_dir g w0)) as [w2|w2]; cbn [andthen wof] in *.
-    + (* complete *)
-      assert (Hc : fs (complete w2) = Good g Dir n' :: t).
-      { unfold complete, slot. rewrite Hn'. cbn. rewrite Hn'. reflexivity. }
-      unfold writer_fin. cbn. unfold writer_post. cbn.
-      assert (Hrc : reg (complete w2) = reg w2 /\ nuid (complete w2) = nuid w2).
-      { unfold complete. destruct (slot (fs w2) 0); cbn; auto. }
-      destruct Hrc as (r1 & r2).
-      repeat split; try congruence.
-      * right. left. exists n'. exact Hc.
-      * exists n'. exact Hc.
-    + (* a member failed *)
-      unfold writer_fin. cbn. unfold writer_post. cbn. repeat split; try congruence.
-      * right. right. repeat split. exists n'. exact Hn'.
-      * intros Hn. exfalso. rewrite m5 in B. destruct B as (X & _); [apply Hfault; exact Hn|discriminate X].
-      * intros Hn. exfalso. rewrite m5 in B. destruct B as (X & _); [apply Hfault; exact Hn|discriminate X].
-  - (* mkdir of the root failed *)
-    apply fin_after_raise; try congruence.
-Qed.
